@@ -502,3 +502,9 @@ for _k in (1, 2, 3, 4, 5):
     benign_patch('ben12-r%d' % _k, ['C19', 'C20'])              # bindings: combinator chains, with_planner! macro, value_error helper, macro impls, method() helper
     benign_patch('ben13-r%d' % _k, ALL)                         # check_motion as Iterator::all / match / while counter; RRT* cost over states; index before push
 benign_patch('rrtstar-skip-parent-local', ALL)                 # RRT* rewire loop skipping the chosen parent through a local
+
+# ---------------------------------------------------------------- round 6 (benign)
+for _k in (1, 2, 3, 4, 5):
+    benign_patch('ben14-r%d' % _k, ALL)                         # RRT* / RRT-Connect: nearest_node(&[Node]) helper, map_or cost, let-else + != Reached, GrowingTree + matches!, index before push
+    benign_patch('ben15-r%d' % _k, ['C03', 'C04', 'C06', 'C08', 'C09', 'C10', 'C11', 'C12', 'C13', 'C14'])   # spaces: validate helper + ?, zip / all, closure-parameterised weighted_norm, if-expressions, slice patterns
+    benign_patch('ben16-r%d' % _k, ALL)                         # PRM: let-else + all, filter/map/collect connections, connectable_milestones(), successors walk, direct return from the BFS
